@@ -492,7 +492,7 @@ func (u *H1Upstream) react(c *sim.Conn, r *ReqRec, up *UpRec) {
 	finish := func() { u.InFlight-- }
 	lab := fmt.Sprintf("up:%s:req#%d", a.Kind, r.Idx)
 	switch a.Kind {
-	case "reply", "", "unknown_id", "stale_id":
+	case "reply", "", "unknown_id", "stale_id", "goaway_reply": // (the xprotocol-only variants are plain replies here)
 		u.S.After(a.Delay, lab, func() { u.send(c, up, mk()); finish() })
 	case "never":
 		u.S.Fault("up_never")
